@@ -38,7 +38,8 @@ inductive Next where
   | dictKwargs          -- a key below `dict_kwargs` of a class specification
   | absent              -- no such position in the configuration
 
-/-- the class named by a class specification -/
+/-- the class named by a class specification (a specification WITHOUT `class_path`, relying on the implicit class of a
+    concrete base type, is opaque `data` for the positional statements: it is covered by the correspondence only) -/
 def classOf (cls : Choices) (kvs : KV) : Option Fields :=
   match assoc "class_path" kvs with
   | some (.str c) => assoc c cls
@@ -54,7 +55,7 @@ def child (p : Pos) (seg : Seg) : Next :=
       | .field n => .pos ⟨false, n, v⟩
       | .sect cfs => if selected fs kvs = some k then .pos ⟨false, .group false cfs, v⟩ else .unselected
       | .none => .undefinedKey
-  | .classArg _ cls, .dict kvs, .key k =>
+  | .classArg _ _ cls, .dict kvs, .key k =>
     match assoc k kvs with
     | none => .absent
     | some v =>
@@ -137,7 +138,7 @@ def removeAt (r : String) : Path → Val → Option Val := modifyAt (removeF r)
 
 def isRequiredNode : Node → Bool
   | .leaf _ req _ => req
-  | .classArg req _ => req
+  | .classArg req _ _ => req
   | .listOf req _ => req
   | _ => false
 
@@ -162,7 +163,7 @@ def foreignAt (q : Pos) (z : String) : Bool :=
     match slotOf fs z with
     | .none => true
     | _ => false
-  | .classArg _ cls, .dict kvs =>
+  | .classArg _ _ cls, .dict kvs =>
     (classOf cls kvs).isSome && !(z = "class_path") && !(z = "init_args") && !(z = "dict_kwargs")
   | _, _ => false
 
